@@ -99,7 +99,13 @@ def invoke(fn, names_, args, environment, pos):
     try:
         return fn.execute(args_, environment, pos)
     except CklRuntimeError as e:
-        e.stacktrace.append(getFuncallString(fn, args_) + " " + str(pos))
+        try:
+            funcall = getFuncallString(fn, args_)
+        except Exception:
+            # rendering an argument failed (e.g. its _str_ member raised):
+            # the error on its way out must stay the one that was raised
+            funcall = f"{fn.name}(...)"
+        e.stacktrace.append(funcall + " " + str(pos))
         raise
     except CklSyntaxError:
         raise
